@@ -89,6 +89,8 @@ def check(ctx):
     ctx.attempt(_escape)
     ctx.attempt(_cache_purity)
     ctx.attempt(forward.check_all, module_suffixes=('trs.trs', 'config.master_config'))
+    from . import memo          # a result cache anywhere in the package is process / object state
+    ctx.attempt(memo.check, list(ctx.repo.funcs.values()))
     from .c14 import fresh_inputs      # (lazy: c14 imports this module)
     ctx.attempt(fresh_inputs)
 
@@ -277,6 +279,12 @@ def _class_level_containers(ctx):
             n += 1
             if name in mutated and name not in rebound:
                 m, site = mutated[name]
+                if isinstance(site, ast.Subscript) or (isinstance(site, ast.Call) and site.func.attr == 'setdefault'):
+                    # filled by key: the memo idiom; whether a later object can get a wrong
+                    # answer depends on the key and on what a hit restores (rule MEMO)
+                    ctx.undecided('GLOBALS', f"{ci.name}.{name} (class-level container) is not mutated through instances",
+                                  f"{m.qualname} fills it by key (`{norm(site)[:50]}`): a memo, decided by the MEMO rule")
+                    continue
                 ctx.violation('GLOBALS', f"{ci.name}.{name} (class-level container) is not mutated through instances",
                               f"`{name} = {norm(st.value)[:30]}` is bound in the class body and {m.qualname} does "
                               f"`{norm(site)[:60]}` on it, while no method rebinds self.{name}: every instance appends to the "
